@@ -294,11 +294,27 @@ def random_words(rng, n, unique_values=True, seen=None):
     return out
 
 
-def random_names(rng, n, forbidden=(b'X   ',)):
+# any printable ASCII may sit in a name slot: lower case, punctuation, blanks inside or in front (right-justified names)
+WIDE_NAME_ALPHABET = NAME_ALPHABET + b'abcdefghijklmnopqrstuvwxyz' + b'/-_.+#%()*&<>=?@[]^~!$,:;|{}' + b"'" + b'"`\\'
+
+
+def random_names(rng, n, forbidden=(b'X   ',), alphabet=None):
+    """alphabet=None: the classic [A-Z0-9] left-justified names (same random stream as ever); otherwise names over the given
+    alphabet, sometimes right-justified or with a blank inside."""
     names = []
     while len(names) < n:
         k = rng.randrange(1, 5)
-        nm = bytes(rng.choice(NAME_ALPHABET) for _ in range(k)).ljust(4, b' ')
+        if alphabet is None:
+            nm = bytes(rng.choice(NAME_ALPHABET) for _ in range(k)).ljust(4, b' ')
+        else:
+            raw = bytes(rng.choice(alphabet) for _ in range(k))
+            r = rng.random()
+            if r < 0.1:
+                nm = raw.rjust(4, b' ')
+            elif r < 0.2 and k == 3:
+                nm = raw[:1] + b' ' + raw[1:]
+            else:
+                nm = raw.ljust(4, b' ')
         if nm not in names and nm not in forbidden:
             names.append(nm)
     return names
@@ -347,7 +363,7 @@ def random_block_frames(rng, max_block=64, max_blocks=8, allow_empty=True):
     return [full] * nfull + [rng.randrange(1, full)]
 
 
-def random_pass(rng, channels=None, block_frames=None, max_block=64, max_blocks=8, unique_values=True):
+def random_pass(rng, channels=None, block_frames=None, max_block=64, max_blocks=8, unique_values=True, name_alphabet=None):
     nch = channels if channels is not None else rng.choice([1, 2, 3, rng.randrange(1, MAX_CHANNELS + 1), rng.randrange(2, MAX_CHANNELS + 1), MAX_CHANNELS])
     bf = block_frames if block_frames is not None else random_block_frames(rng, max_block, max_blocks)
     n = sum(bf)
@@ -356,7 +372,7 @@ def random_pass(rng, channels=None, block_frames=None, max_block=64, max_blocks=
     fields = {'head': bytes([0, rng.randrange(0, 4), 0, 0]), 'text_b': _printable(rng, 75) if rng.random() < 0.5 else b'T  2 9 / 1 0 - 3'.ljust(75),
               'bin_a': bytes(rng.getrandbits(8) for _ in range(5)), 'bin_c': bytes(rng.getrandbits(8) for _ in range(6)) + b'  ',
               'tail': _printable(rng, 8)}
-    return PassModel(random_names(rng, nch), random_range(rng, n), bf, words, random_description(rng), fields)
+    return PassModel(random_names(rng, nch, alphabet=name_alphabet), random_range(rng, n), bf, words, random_description(rng), fields)
 
 
 def random_file(rng, passes=None, **kw):
